@@ -366,6 +366,12 @@ def c_dask(rng):
                 out.append(V(f'dask.bounds/{tag}', '', recipe))
             if not all(nan_eq(a, b) for a, b in zip(g.area.compute().values, df.geometry.area.values)):
                 out.append(V(f'dask.area/{tag}', '', recipe))
+            gl = g.length.compute()
+            el_ = [oracle.length(kind, el) for el in cs.view]
+            if list(gl.index) != list(df.index) or not all(
+                    (math.isnan(float(a)) and math.isnan(float(b))) or abs(float(a) - float(b)) <= 1e-12 * max(1.0, abs(float(b)))
+                    for a, b in zip(gl.values, el_)):
+                out.append(V(f'dask.length/{tag}', f'{list(gl.values)} expected {el_}', recipe))
             bx = gen.box(rng)
             if rng.random() < 0.35:
                 bx = (-100.0, -100.0, 100.0, 100.0)      # every partition lies inside the box: missing / empty rows stay out
